@@ -314,7 +314,7 @@ impl Prop for C06 {
                     gen: enum_strings,
                 },
             },
-            Stage { name: "random", kind: StageKind::Random { strategy: strat, cases: tier.pick(200_000, 3_000_000) } },
+            Stage { name: "random", kind: StageKind::Random { strategy: strat, cases: tier.pick(1_000_000, 5_000_000) } },
         ]
     }
     fn check(case: &Case, obs: &mut Obs) -> Verdict {
